@@ -218,6 +218,22 @@ fn enumerate_expiry(ctx: &mut Ctx, s: &Session, l1: &[Mv], tf: &ThreeFold, tf_us
             }
         }
     }
+    // the shipped wall-clock limit at its deterministic corner: a zero (and a one-nanosecond)
+    // duration has expired by the first poll whatever the machine does, so the outcome must be
+    // that of k = 0.  Larger durations depend on real time and are not simulated.
+    for nanos in [0u64, 1] {
+        let o = op(Op::Search, || {
+            let t = chess_engine::DurationTimeout::new(std::time::Duration::from_nanos(nanos));
+            let mut e = Engine::default();
+            e.positional = positional;
+            e.max_depth = SENTINEL;
+            let (mv, score) = e.search(&s.board, tf, t);
+            Outcome { mv: mv.map(sut::unmv), score, completed: if e.max_depth == SENTINEL { None } else { Some(e.max_depth) }, polls: 1 }
+        });
+        searches += 1;
+        ctx.stats.bump("c11.searches-under-the-real-zero-duration-limit");
+        check_result(ctx, &fen, l1, 0, &o, tf_used)?;
+    }
     ctx.stats.add("c11.searches", searches);
     ctx.stats.add("sim.clock-ticks", polls);
     ctx.stats.bump("c11.positions");
